@@ -94,7 +94,7 @@ package sourcebundle
 //@           || (modeDirBit(fileMode(info)) && (domin(ignoreRules, Rel(root, absPath)) || domin(ignoreRules, Rel(root, absPath) + "/")))) ==> $lastRemoved == absPath
 //@   ensures C03,C10.prepare.kept-not-removed: err == nil && !excl(ignoreRules, Rel(root, absPath)) && !(modeDirBit(fileMode(info)) && excl(ignoreRules, Rel(root, absPath) + "/")) ==> $lastRemoved == ""
 //@   ensures C03.prepare.reincludable-kept: err == nil && modeDirBit(fileMode(info)) && !domin(ignoreRules, Rel(root, absPath)) && !domin(ignoreRules, Rel(root, absPath) + "/") ==> $lastRemoved == ""
-//@   at-call os.RemoveAll#2 C03.prepare.dir-removal-dominating: domin(ignoreRules, Rel(root, absPath)) || domin(ignoreRules, Rel(root, absPath) + "/")
+//@   at-call os.RemoveAll C03.prepare.removal-justified: a0 == absPath && ((!modeDirBit(fileMode(info)) && excl(ignoreRules, Rel(root, absPath))) || (modeDirBit(fileMode(info)) && (domin(ignoreRules, Rel(root, absPath)) || domin(ignoreRules, Rel(root, absPath) + "/"))))
 //@   ensures C10.prepare.kept-is-safe: err == nil && rerr == nil && $lastRemoved == "" && Rel(root, absPath) != "."
 //@       && !(modeDirBit(fileMode(info)) && (excl(ignoreRules, Rel(root, absPath)) || excl(ignoreRules, Rel(root, absPath) + "/")))
 //@       ==> isLocalPath(Rel(RealPath(Abs(root)), RealPath(Join(RealPath(Abs(root)), Rel(root, absPath)))))
@@ -168,7 +168,7 @@ package sourcebundle
 //@   opt lemmas=bundle
 //@   requires pre.b: b != nil && b.remotePackageDirs != nil && b.remotePackageMeta != nil
 //@   requires pre.open: isAbs(b.targetDir) && Clean(b.targetDir) == b.targetDir
-//@   tolerates os.Lstat#1: true
+//@   tolerates os.Lstat: true
 //@   ghost $nFetch Int = 0
 //@   ghost $evStart Int = 0
 //@   ghost $evEnd Int = 0
@@ -216,9 +216,8 @@ package sourcebundle
 //@   invariant loop3 C14.resolve.analysed-is-recorded: $analysedA ==> mapHas(b.analyzed, skolem("A", "sourcebundle.remoteArtifact"))
 //@   ensures C08,C12.resolve.drained: len(b.pendingRemote) == 0 && len(b.pendingRegistry) == 0
 //@   ensures C12.resolve.poison: hasErrorsOf(diags) ==> b.targetDir == ""
-//@   at-call append#1 C12.resolve.registry-failure-becomes-diag: dyntype(a1, "*sourcebundle.internalDiagnostic") && unbox(a1, "*sourcebundle.internalDiagnostic").severity == DiagError
-//@   at-call append#3 C12.resolve.install-failure-becomes-diag: dyntype(a1, "*sourcebundle.internalDiagnostic") && unbox(a1, "*sourcebundle.internalDiagnostic").severity == DiagError
-//@   at-call append#2 C08.resolve.registry-hop: a1.sourceAddr == realSource && a1.depFinder == next.depFinder
+//@   at-call append<sourcebundle.Diagnostic> C12.resolve.failure-becomes-error-diag: dyntype(a1, "*sourcebundle.internalDiagnostic") && unbox(a1, "*sourcebundle.internalDiagnostic").severity == DiagError
+//@   at-call append<sourcebundle.remoteArtifact> C08.resolve.registry-hop: a1.sourceAddr == realSource && a1.depFinder == next.depFinder
 //@   at-call invoke github.com/hashicorp/go-slug/sourcebundle.DependencyFinder.FindDependencies C14.resolve.analyse-once: !mapHas(b.analyzed, artifact) && artifact.sourceAddr == next__2.sourceAddr && artifact.depFinder == next__2.depFinder
 //@   at-call invoke github.com/hashicorp/go-slug/sourcebundle.DependencyFinder.FindDependencies C08.resolve.analyse-in-package: a2 == next__2.sourceAddr.subPath && a3 != nil && a3.baseAddr == next__2.sourceAddr
 //@   at-call dynamic field sourcebundle.BuildTracer.Diagnostics C12.resolve.finder-diags-traced: a1 == moreDiags && len(moreDiags) != 0
